@@ -50,7 +50,10 @@ def run(tier, replay=None):
     reps = 0
     for tag, exe, pat, repeat in builds:
         env = common.san_env(dict(VERIF_TMP=d))
-        sh = common.Sharded(exe, lambda a, b: ['c14w', common.seed(), a, b, d, tag, pat, 1 if repeat else 0], total, env=env, tag='c14' + tag,
+        # 'earlier activity in the process': the ff run writes every file as the first session of a fresh process, the 5a run in
+        # batches of 7, the others in the default batches - the same file is preceded by different sessions in each
+        chunk = 1 if tag == 'heapff' else 7 if tag == 'heap5a' else None
+        sh = common.Sharded(exe, lambda a, b: ['c14w', common.seed(), a, b, d, tag, pat, 1 if repeat else 0], total, env=env, chunk=chunk, tag='c14' + tag,
                             timeout=1500).run()
         common.absorb(res, sh)
         st = common.merge_stats(sh.stats)
@@ -82,7 +85,7 @@ def run(tier, replay=None):
                     who = attribute(exe_plain, env, idx, data, off, p + '.meta')
                     m = re.search(r'object \d+ (\w+) member (\S+)', who)
                     key = 'output-depends-on-%s:%s' % ('heap-contents' if tag.startswith('heap') else 'stack-contents', (m.group(1) + ':' + m.group(2)) if m else 'unattributed')
-                    res.violation(key, 'sequence %d: %s vs %s differ at file offset %d (%s)' % (idx, ref[0], tag, off, who), dict(case=idx))
+                    res.violation(key, 'sequence %d: %s vs %s differ at file offset %d (%s); the two runs differ in the poison pattern of the heap/stack and in the sessions that ran earlier in the process' % (idx, ref[0], tag, off, who), dict(case=idx))
         for tag, exe, pat, repeat in builds:
             for ext in ('', '.meta'):
                 try:
@@ -93,7 +96,8 @@ def run(tier, replay=None):
     res.distinct = compared
     res.rule = ('%d sequences (one default-constructed object of every reflected class framed by populated objects incl. inactive union '
                 'variants, then C01-style sequences) each written in fresh processes whose heap is pre-filled/freed with patterns 00/FF/A5/5A '
-                '(allocation ledger), with -ftrivial-auto-var-init=pattern and =zero builds, and twice in one process after allocation churn; '
+                '(allocation ledger), with -ftrivial-auto-var-init=pattern and =zero builds, and twice in one process after allocation churn; each file is '
+                'written as the first session of a fresh process in one run and after different earlier sessions (batches of 5 and of 7) in the others; '
                 'all files must be byte-identical; a difference is mapped through the independent decoder and the emit trace to '
                 '(object, class, member). distinct_nontrivial = cross-build/pattern file comparisons performed' % total)
     res.samples = ['sequence %d written as %s' % (i, ', '.join(b[0] for b in builds)) for i in (0, 117, 118)]
